@@ -1095,6 +1095,32 @@ def apply_step(st, live):
     return build(rr, Built())
 
 
+def poke(G):
+    """move the first control point by one unit in the first component, in place (NurbsFunc stores homogeneous
+    coordinates: the weighted point moves by its weight)"""
+    c = G.coeffs
+    if type(G).__name__ == 'NurbsFunc':
+        c[(0,) * G.sdim + (0,)] += c[(0,) * G.sdim + (-1,)]
+    else:
+        c[(0,) * c.ndim] += 1.0
+
+
+def evaluate_all(x):
+    out = []
+    ends = [np.array([float(lo), 0.5 * (float(lo) + float(hi)), float(hi)]) for lo, hi in x.support]
+    for f in (x.grid_eval, x.grid_jacobian, x.grid_hessian):
+        try:
+            out.append(np.array(f(ends), dtype=float))
+        except Exception as ex:
+            out.append(type(ex).__name__)
+    return out
+
+
+def same_evals(a, b):
+    return all((isinstance(x, str) and x == y) or (not isinstance(x, str) and not isinstance(y, str) and
+                                                    x.shape == y.shape and np.array_equal(x, y)) for x, y in zip(a, b))
+
+
 def step_str(st):
     return '%s(%s)' % (st['op'], ','.join(str(st[k]) for k in ('a', 'b') if k in st))
 
@@ -1124,7 +1150,28 @@ def run_ops(ctx, agg, res, name):
             bt.viol('construct initial objects', 'exception %s' % type(ex).__name__, error=repr(ex)[:300])
             continue
         ok = True
+        target = None
+        for x in live:
+            evaluate_all(x)
         for st in hist:
+            if st['op'] in ('poke', 'pokesrc'):
+                # the user edits one control point of one side of a copy() through the documented `coeffs` attribute:
+                # the other side is an independent object, so neither its data nor its evaluations may move
+                X, other = live[st['a'] - 1], live[st['other'] - 1]
+                ofp, oev = fingerprint(other), evaluate_all(other)
+                try:
+                    poke(X)
+                except Exception as ex:
+                    bt.viol(st['op'], 'exception %s' % type(ex).__name__, error=repr(ex)[:300])
+                    ok = False
+                    break
+                if fingerprint(other) != ofp:
+                    bt.viol('copy', 'shares its coefficient data with the original')
+                elif not same_evals(evaluate_all(other), oev):
+                    bt.viol('copy', 'evaluation of one side changes when the other side is edited')
+                target = X
+                evaluate_all(X)
+                continue
             before = [fingerprint(x) for x in live]
             try:
                 G = apply_step(st, live)
@@ -1138,9 +1185,13 @@ def run_ops(ctx, agg, res, name):
                     bt.viol('%s' % st['op'], 'alters an existing object', altered=k + 1,
                             operand=(k + 1) in (st['a'], st.get('b')))
             live.append(G)
+            target = G
+            # between the operations the objects are USED (values, Jacobians, Hessians): read-only
+            for x in live:
+                evaluate_all(x)
         if not ok:
             continue
-        G = live[-1]
+        G = target
         grid = [np.array([fr(x) for x in ax]) for ax in rec['grid']]
         gs = tuple(len(g) for g in grid)
         osh = tuple(rec['res']['osh'])
